@@ -200,6 +200,16 @@ def textOfL (sel : StrClass → Bool) : List Node → List PStr
   | k :: ks => textOf sel k ++ textOfL sel ks
 end
 
+mutual
+/-- every string node at or beneath a node, in document order, whatever its class -/
+def strNodes : Node → List (StrClass × PStr)
+  | .str c v => [(c, v)]
+  | .tag _ _ ks => strNodesL ks
+def strNodesL : List Node → List (StrClass × PStr)
+  | [] => []
+  | k :: ks => strNodes k ++ strNodesL ks
+end
+
 /-- the documented meaning of `separator.join` -/
 def joinSpec (sep : PStr) : List PStr → PStr
   | [] => []
